@@ -64,7 +64,7 @@ var tokTypConsts = map[string]bool{"packageToken": true, "identifierToken": true
 	"delimiterToken": true, "literalToken": true, "literalRuneToken": true, "literalByteToken": true, "nullToken": true, "layoutToken": true}
 
 
-var leanTy = map[aty]string{tStr: "Str", tBool: "Bool", tInt: "Int", tDef: "Def", tFile: "FileS", tMapDef: "List (Str × Def)", tMapStr: "List (Str × Str)", tSliceStr: "List Str", tWriter: "Str", tComment: "Str", tTag: "List (Str × Str)", tCode: "Code", tKV: "Str × Str × Code × Code", tSliceKV: "List (Str × Str × Code × Code)", tCtx: "Option Code", tOptCode: "Option Code", tSliceCode: "List Code", tMapCode: "List (Code × Code)", tTokTyp: "Go.TokTyp"}
+var leanTy = map[aty]string{tStr: "Str", tBool: "Bool", tInt: "Int", tDef: "Def", tFile: "FileS", tMapDef: "List (Str × Def)", tMapStr: "List (Str × Str)", tSliceStr: "List Str", tWriter: "Str", tComment: "Str", tTag: "List (Str × Str)", tDyn: "Go.Dyn", tCode: "Code", tKV: "Str × Str × Code × Code", tSliceKV: "List (Str × Str × Code × Code)", tCtx: "Option Code", tOptCode: "Option Code", tSliceCode: "List Code", tMapCode: "List (Code × Code)", tTokTyp: "Go.TokTyp"}
 
 // fields of jen.File that the registry functions may touch -> (FileS field, type)
 var fileFields = map[string]struct {
@@ -99,6 +99,7 @@ type algo struct {
 	tokSrc      map[string]string // local of type token -> the Code expression it was asserted from
 	tokOpt      map[string]string // … "O" when that expression is an Option Code
 	allowShadow bool
+	tokDyn      map[string]bool // token receivers whose content is modelled as Go.Dyn (token.render)
 	kvName      string // Dict.render: the name of its local struct type
 	fileVar     string // entry points: the name of the *File parameter (rendered as `f`)
 }
@@ -270,6 +271,9 @@ func (a *algo) expr(e ast.Expr, env aenv) (string, aty) {
 			if x.Sel.Name == "typ" {
 				return base + "_typ", tTokTyp
 			}
+			if id, ok := x.X.(*ast.Ident); ok && x.Sel.Name == "content" && a.tokDyn[id.Name] {
+				return base + "_val", tDyn
+			}
 		case tComment:
 			if x.Sel.Name == "comment" {
 				return base, tStr
@@ -293,6 +297,16 @@ func (a *algo) expr(e ast.Expr, env aenv) (string, aty) {
 		}
 		bail("dereference %s", nodeStr(x))
 	case *ast.TypeAssertExpr:
+		if sel, ok := x.X.(*ast.SelectorExpr); ok && sel.Sel.Name == "content" && x.Type != nil {
+			if id, ok := sel.X.(*ast.Ident); ok && a.tokDyn[id.Name] {
+				switch nodeStr(x.Type) {
+				case "string":
+					return "(Go.dynStr " + lv(id.Name) + "_val)", tStr
+				case "rune":
+					return lv(id.Name) + "_val", tDyn
+				}
+			}
+		}
 		// t.content.(string) on the token receiver
 		if sel, ok := x.X.(*ast.SelectorExpr); ok && sel.Sel.Name == "content" && x.Type != nil && nodeStr(x.Type) == "string" {
 			if id, ok := sel.X.(*ast.Ident); ok && env[id.Name] == tToken {
@@ -492,6 +506,13 @@ func (a *algo) call(x *ast.CallExpr, env aenv) (string, aty) {
 				return "(" + l + " ++ [" + e + "])", tSliceStr
 			}
 		}
+	case "strconv.QuoteRune":
+		if len(x.Args) == 1 {
+			v, t := a.expr(x.Args[0], env)
+			if t == tDyn {
+				return "(Go.quoteRuneDyn cfg.isPrint " + v + ")", tStr
+			}
+		}
 	case "strconv.Quote":
 		ar := a.args(x, env, tStr)
 		return "(Quote.quote cfg.isPrint " + ar[0] + ")", tStr
@@ -603,6 +624,11 @@ func (a *algo) sprintf(format string, args []ast.Expr, env aenv) string {
 			lit += "%"
 			continue
 		}
+		sharp := false
+		if format[i] == '#' && i+1 < len(format) {
+			sharp = true
+			i++
+		}
 		if lit != "" {
 			parts = append(parts, leanStr(lit))
 			lit = ""
@@ -613,6 +639,14 @@ func (a *algo) sprintf(format string, args []ast.Expr, env aenv) string {
 		v, t := a.expr(args[ai], env)
 		ai++
 		switch {
+		case t == tDyn && sharp && format[i] == 'v':
+			parts = append(parts, "(Go.sharpV cfg.isPrint "+v+")")
+		case t == tDyn && !sharp && format[i] == 'T':
+			parts = append(parts, "(Go.typeName "+v+")")
+		case t == tDyn && !sharp && format[i] == 's':
+			parts = append(parts, "(Go.dynStr "+v+")")
+		case sharp:
+			bail("format verb %%#%c in %q", format[i], format)
 		case format[i] == 's' && t == tStr:
 			parts = append(parts, v)
 		case format[i] == 'd' && t == tInt:
@@ -1756,6 +1790,10 @@ func (a *algo) translate(key string) {
 		a.translateEffect(key)
 		return
 	}
+	if key == "token.render" {
+		a.translateTokenRender(key)
+		return
+	}
 	env := aenv{}
 	var params []string
 	if d.Recv != nil && len(d.Recv.List) == 1 {
@@ -1886,13 +1924,13 @@ var algoTargets = []string{".IsReservedWord", "File.isLocal", "File.isValidAlias
 	// null-ness (open recursion through the Code interface: `recNull`)
 	"token.isNull", "comment.isNull", "Group.isNullItems", "Group.isNull", "Statement.isNull", "Dict.isNull",
 	// the render methods of Statement and Group (algo_render.go)
-	"Statement.render", "Group.renderItems", "Group.render", "Dict.render",
+	"Statement.render", "Group.renderItems", "Group.render", "Dict.render", "token.render",
 	// the entry points, with the environment as a parameter (algo_effect.go)
 	"File.Render", "Statement.RenderWithFile", "Group.RenderWithFile", "File.Save"}
 
 func translateAlgorithms(fns []fn, reservedVar, stdVar string) (lean string, summary string) {
 	a := &algo{fns: map[string]*ast.FuncDecl{}, reservedVar: reservedVar, stdVar: stdVar, mutates: map[string]bool{}, needsFuel: map[string]bool{}, needsLib: map[string]bool{}, needsRec: map[string]bool{},
-		retTy: map[string]aty{}, out: map[string]string{}, failed: map[string]string{}, inProgress: map[string]bool{}, regexes: map[string]string{}, writer: map[string]string{}, usesCtx: map[string]bool{}, tokSrc: map[string]string{}, tokOpt: map[string]string{}}
+		retTy: map[string]aty{}, out: map[string]string{}, failed: map[string]string{}, inProgress: map[string]bool{}, regexes: map[string]string{}, writer: map[string]string{}, usesCtx: map[string]bool{}, tokSrc: map[string]string{}, tokOpt: map[string]string{}, tokDyn: map[string]bool{}}
 	for _, f := range fns {
 		a.fns[f.recv+"."+f.name] = f.decl
 	}
